@@ -51,6 +51,7 @@ import (
 	"time"
 
 	"github.com/spf13/viper"
+	"github.com/usnistgov/dastard/lancero"
 
 	"verif/simrt"
 )
@@ -594,6 +595,15 @@ type c16World struct {
 	tmpSaved   string
 	nExdev     int
 	envCheck   bool
+	// ENVIRONMENT, continued: the cards of the simulated computer (drawn once per run; the same
+	// for every process of the run, as on one machine): numbers of the Lancero cards
+	// (/dev/lancero_user<N> …) and of the Abaco ring buffers (/dev/shm/xdma<N>_c2h_0_…). Every
+	// SourceControl of the run gets them as its device tables right after NewSourceControl:
+	// the one RunRPCServer builds (through verifWrap_NewSourceControl, which the instrumenter
+	// puts in the place of the call) and the harness's request object.
+	lanCards   []int
+	abacoRings []int
+	nDevHook   int // SourceControls of the program that were given the tables
 }
 
 // c16Gen is one process ("run of dastard").
@@ -702,6 +712,64 @@ func (w *c16World) crossDevice(oldpath, newpath string) bool {
 
 // envNote is appended to violation texts when the environment matters for reading them.
 func (w *c16World) envNote() string {
+	return w.tmpNote() + w.devNote()
+}
+
+// devNote tells which cards the computer of this run has (empty when it has none).
+func (w *c16World) devNote() string {
+	if len(w.lanCards)+len(w.abacoRings) == 0 {
+		return ""
+	}
+	return fmt.Sprintf("\n[environment of this run: the computer has Lancero cards %v and Abaco ring buffers %v (device tables of every SourceControl of the run)]", w.lanCards, w.abacoRings)
+}
+
+// c16NewSourceControlHook, when set, is called with every SourceControl the PROGRAM builds
+// (NewSourceControl called from non-harness code, i.e. RunRPCServer), before the program
+// uses it. Set by c16Setup, cleared by cleanup.
+var c16NewSourceControlHook func(*SourceControl)
+
+// verifWrap_NewSourceControl stands in for NewSourceControl at the call sites of the program
+// (instrumenter rule "call-wrap"): the real constructor, then the run's hook. NewLanceroSource
+// and NewAbacoSource have just looked for cards in the real /dev and /dev/shm of the build
+// machine and found none; the hook enters the cards of the simulated computer.
+func verifWrap_NewSourceControl() *SourceControl {
+	sc := NewSourceControl()
+	if c16NewSourceControlHook != nil {
+		c16NewSourceControlHook(sc)
+	}
+	return sc
+}
+
+// giveDevices enters the cards of the run's computer into the device tables of sc, as
+// NewLanceroSource / NewAbacoSource do for the devices they find (a Lancero card without
+// hardware behind it; a ring that is never opened: Configure only looks the numbers up).
+func (w *c16World) giveDevices(sc *SourceControl) {
+	for _, n := range w.lanCards {
+		card, err := lancero.NewNoHardware(1, 4, 1000)
+		if err != nil {
+			simrt.Fail("harness.env", "harness:no-lancero-card", "lancero.NewNoHardware: %v", err)
+		}
+		sc.lancero.devices[n] = &LanceroDevice{card: card, devnum: n}
+		sc.lancero.ncards++
+	}
+	for _, n := range w.abacoRings {
+		sc.abaco.arings[n] = &AbacoRing{ringnum: n}
+		sc.abaco.Nrings++
+	}
+}
+
+// c16DrawCards draws a subset of 0..max-1 (increasing).
+func c16DrawCards(max int) []int {
+	var out []int
+	for n := 0; n < max; n++ {
+		if simrt.Draw(3) == 0 {
+			out = append(out, n)
+		}
+	}
+	return out
+}
+
+func (w *c16World) tmpNote() string {
 	if !w.tmpOtherFS {
 		return ""
 	}
@@ -765,7 +833,21 @@ func (g *c16Gen) startServer() {
 	g.rpc = true
 	g.starting = true
 	http.DefaultServeMux = http.NewServeMux() // RunRPCServer registers its handlers there, once per real process
+	nHook := g.w.nDevHook
 	RunRPCServer(Ports.RPC, false)
+	if g.w.nDevHook == nHook && len(g.w.lanCards)+len(g.w.abacoRings) > 0 {
+		// The build has no call-site wrapper (instrumenter without the "call-wrap" rule): the
+		// server's sources cannot be given cards, so this run's computer has none after all.
+		simrt.Hit("env:device-hook-not-in-force(instrumenter-without-call-wrap)")
+		g.w.env.Op("environment: RunRPCServer's SourceControl is out of reach in this build; the computer has no cards after all")
+		g.w.lanCards, g.w.abacoRings = nil, nil
+	}
+	if len(g.w.lanCards) > 0 {
+		simrt.Hit("env:computer-has-lancero-cards")
+	}
+	if len(g.w.abacoRings) > 0 {
+		simrt.Hit("env:computer-has-abaco-ring-buffers")
+	}
 	start := time.Now()
 	for {
 		n := g.nAll
@@ -788,6 +870,7 @@ func (g *c16Gen) startServer() {
 	}
 	if g.w.hsc == nil {
 		g.w.hsc = NewSourceControl()
+		g.w.giveDevices(g.w.hsc)
 	}
 	g.hsc = g.w.hsc
 	g.hsc.clientUpdates = clientMessageChan
@@ -1129,6 +1212,7 @@ func (w *c16World) cleanup() {
 	}
 	simrt.SetFS(nil)
 	simrt.SetCrossDevice(nil)
+	c16NewSourceControlHook = nil
 	c16Setenv("TMPDIR", w.tmpSaved)
 }
 
@@ -1386,6 +1470,24 @@ func c16Setup(env *simrt.Env, startup func() error) *c16World {
 		simrt.Hit("env:tmpdir-on-the-file-system-of-home")
 		env.Op("environment: $TMPDIR and the home directory are on one file system")
 	}
+	// the environment: which cards the computer has
+	if simrt.Draw(2) == 1 {
+		w.lanCards = c16DrawCards(8)
+		w.abacoRings = c16DrawCards(maxAbacoRings)
+		if len(w.lanCards)+len(w.abacoRings) == 0 {
+			w.lanCards = []int{simrt.Draw(8)}
+		}
+	}
+	if len(w.lanCards)+len(w.abacoRings) > 0 {
+		env.Op("environment: the computer has Lancero cards %v and Abaco ring buffers %v", w.lanCards, w.abacoRings)
+	} else {
+		simrt.Hit("env:computer-without-cards")
+		env.Op("environment: the computer has no Lancero card and no Abaco ring buffer")
+	}
+	c16NewSourceControlHook = func(sc *SourceControl) {
+		w.nDevHook++
+		w.giveDevices(sc)
+	}
 	return w
 }
 
@@ -1448,8 +1550,8 @@ func c16CanonJSON(body string) string {
 // anyway) are not claimed; everything else in the model is a value a run held.
 func (w *c16World) checkAnnounced(g *c16Gen, model map[string]interface{}, rej map[string]bool, what string) {
 	differs := func(topic, got, want string) {
-		simrt.Fail("C16.restore", "startup-"+strings.ToLower(topic)+"-differs", "%s: the start-up announces %s = %s, the value saved last by the previous run was %s\n(configuration file read by this start-up: %s)",
-			what, topic, c16Short(got), c16Short(want), c16Short(string(g.lastBytes)))
+		simrt.Fail("C16.restore", "startup-"+strings.ToLower(topic)+"-differs", "%s: the start-up announces %s = %s, the value saved last by the previous run was %s\n(configuration file read by this start-up: %s)%s",
+			what, topic, c16Short(got), c16Short(want), c16Short(string(g.lastBytes)), w.devNote())
 	}
 	for _, t := range []string{"SIMPULSE", "TRIANGLE", "LANCERO", "ABACO", "ROACH"} {
 		v, ok := model[t]
@@ -1471,6 +1573,9 @@ func (w *c16World) checkAnnounced(g *c16Gen, model map[string]interface{}, rej m
 			differs(t, got, want)
 		}
 		simrt.Hit("startup-announces:" + t)
+		if (t == "LANCERO" && len(w.lanCards) > 0) || (t == "ABACO" && len(w.abacoRings) > 0) {
+			simrt.Hit("startup-restores-saved-configuration-on-a-computer-with-cards:" + t)
+		}
 	}
 	if v, ok := model["STATUS"]; ok {
 		st := v.(ServerStatus)
